@@ -42,6 +42,9 @@ type BlockSpec struct {
 	Proposer string   `json:"proposer"`
 	Txs      []string `json:"txs"`    // hex of the raw tx bytes
 	Labels   []string `json:"labels"` // one per tx: message kinds, for the histogram only
+	// node-local requests a "twin" execution serves after this block is committed: transactions to SIMULATE
+	// (gas estimation; never part of a block).  Consensus must not depend on them.
+	Sims []string `json:"sims,omitempty"`
 }
 
 type Spec struct {
@@ -69,6 +72,8 @@ type Exec struct {
 // ---- a running chain ---------------------------------------------------------------------
 
 type Chain struct {
+	db     dbm.DB
+	bl     []sdk.AccAddress
 	App    *sifapp.SifchainApp
 	Height int64 // height of the block in progress (after Begin) or last committed
 	Header tmproto.Header
@@ -118,7 +123,34 @@ func NewChain(spec *Spec) *Chain {
 	if h == 0 {
 		h = 1
 	}
-	return &Chain{App: app, Height: h - 1}
+	return &Chain{db: db, bl: bl, App: app, Height: h - 1}
+}
+
+// Restart replaces the application by a new instance on the same database (what a node restart does):
+// everything the old instance kept in memory is gone, the committed state is loaded from the store.
+func (c *Chain) Restart() {
+	enc := sifapp.MakeTestEncodingConfig()
+	c.App = sifapp.NewSifAppWithBlacklist(log.NewNopLogger(), c.db, nil, true, map[int64]bool{}, sifapp.DefaultNodeHome, 0, enc, sifapp.EmptyAppOptions{}, c.bl)
+}
+
+// localQueries: read-only gRPC requests a node serves between blocks
+var localQueries = []string{"/sifnode.clp.v1.Query/GetPools", "/sifnode.tokenregistry.v1.Query/Entries", "/sifnode.admin.v1.Query/ListAccounts",
+	"/sifnode.clp.v1.Query/GetLiquidityProviders", "/sifnode.margin.v1.Query/GetParams", "/sifnode.epochs.v1.Query/EpochInfos"}
+
+// ServeLocal does what a node does between two blocks besides consensus: it answers simulation (gas
+// estimation) requests and queries, and runs CheckTx on the transactions waiting in its mempool.
+func (c *Chain) ServeLocal(sims []string, mempool []string) {
+	for _, t := range sims {
+		raw, _ := hex.DecodeString(t)
+		c.App.Simulate(raw) // result ignored: only its (absent) influence on later blocks matters
+	}
+	for _, q := range localQueries {
+		c.App.Query(abci.RequestQuery{Path: q})
+	}
+	for _, t := range mempool {
+		raw, _ := hex.DecodeString(t)
+		c.App.CheckTx(abci.RequestCheckTx{Tx: raw, Type: abci.CheckTxType_New})
+	}
 }
 
 func (c *Chain) Begin(height, unix int64, proposer []byte) abci.ResponseBeginBlock {
@@ -171,15 +203,29 @@ func (c *Chain) EndEv() (endObs string, appHash string, events []abci.Event) {
 	return endObs, hex.EncodeToString(cm.Data), events
 }
 
+// Execution modes: all of them must give the same app hashes and transaction results.
+const (
+	ModePlain   = 0 // fresh instance, blocks only
+	ModeTwin    = 1 // fresh instance that also serves simulations, queries and CheckTx between blocks
+	ModeRestart = 2 // fresh instance that is restarted (new application object on the same database) twice on the way
+)
+
+var modeNames = map[int]string{ModePlain: "plain", ModeTwin: "twin(sim+query+checktx)", ModeRestart: "restarted"}
+
 // Execute re-executes a recorded history in a fresh application instance.
-func Execute(spec *Spec) (ex Exec) {
+func Execute(spec *Spec) Exec { return ExecuteMode(spec, ModePlain) }
+
+func ExecuteMode(spec *Spec, mode int) (ex Exec) {
 	defer func() {
 		if r := recover(); r != nil {
 			ex.Panic = fmt.Sprint(r)
 		}
 	}()
 	c := NewChain(spec)
-	for _, b := range spec.Blocks {
+	for i, b := range spec.Blocks {
+		if mode == ModeRestart && i > 0 && (i == len(spec.Blocks)/3 || i == 2*len(spec.Blocks)/3) {
+			c.Restart()
+		}
 		prop, _ := hex.DecodeString(b.Proposer)
 		c.Begin(b.Height, b.Time, prop)
 		var o BlockObs
@@ -189,6 +235,13 @@ func Execute(spec *Spec) (ex Exec) {
 		}
 		o.EndBlock, o.AppHash = c.End()
 		ex.Blocks = append(ex.Blocks, o)
+		if mode == ModeTwin {
+			var next []string
+			if i+1 < len(spec.Blocks) {
+				next = spec.Blocks[i+1].Txs
+			}
+			c.ServeLocal(b.Sims, next)
+		}
 	}
 	return ex
 }
@@ -243,7 +296,7 @@ func init() {
 		if err := json.Unmarshal(b, &spec); err != nil {
 			panic(err)
 		}
-		ex := Execute(&spec)
+		ex := ExecuteMode(&spec, n) // -n carries the mode
 		eb, _ := json.Marshal(ex)
 		if err := os.WriteFile(filepath.Join(argAfter("-out"), "exec.json"), eb, 0o644); err != nil {
 			panic(err)
